@@ -293,6 +293,127 @@ fn part_b(rep: &mut Report, tier: Tier) {
     rep.set("B_history_cases", cases);
 }
 
+/// (B2) histories of stdlib calls: for every stdlib function and every ordered pair (h, e) of argument
+/// tuples from the sweep alphabets, `run(h); clear(); run(e)` on one thread equals `run(e)` on a fresh
+/// thread (fresh thread-local state). Catches scratch buffers / caches hidden inside a function.
+fn part_b2(rep: &mut Report, tier: Tier) {
+    use crate::props::sweep;
+    let specs = sweep::specs(tier);
+    let per_fn = if tier.thorough() { 20 } else { 10 };
+    let mut functions = 0u64;
+    let mut pairs = 0u64;
+    let mut differing_refs = 0u64;
+    for spec in &specs {
+        if sweep::NONDETERMINISTIC.contains(&spec.name.as_str()) || spec.name == "validate_json_schema" {
+            continue;
+        }
+        // runtime-mode tuples with literal-evaluable arguments, grouped by argument shape (same program text)
+        let mut by_args: std::collections::BTreeMap<String, Vec<Value>> = std::collections::BTreeMap::new();
+        for c in sweep::cases_for(spec, 40, false) {
+            if c["mode"] != "runtime" {
+                continue;
+            }
+            let mut ev = std::collections::BTreeMap::new();
+            let mut ok = true;
+            for (n, e) in c["event_src"].as_array().cloned().unwrap_or_default().iter().enumerate() {
+                let v = match e {
+                    J::String(t) => sweep::eval_literal(t),
+                    o => Some(vv::dec(&o["$value"])),
+                };
+                match v {
+                    Some(v) => {
+                        ev.insert(vrl::value::KeyString::from(format!("a{n}")), v);
+                    }
+                    None => ok = false,
+                }
+            }
+            // this part runs in-process: extreme counts (which may legitimately exhaust memory or take
+            // long — C05's business, examined in sacrificial workers) are kept out of the histories
+            fn tame(v: &Value) -> bool {
+                match v {
+                    Value::Integer(i) => i.unsigned_abs() <= 10_000,
+                    Value::Float(f) => f.is_finite() && f.abs() <= 1e9,
+                    Value::Array(a) => a.iter().all(tame),
+                    Value::Object(o) => o.values().all(tame),
+                    _ => true,
+                }
+            }
+            ok &= ev.values().all(tame);
+            if ok {
+                let key = format!("{}({}){}", spec.name, c["args"].as_str().unwrap_or(""), c["closure"].as_str().unwrap_or(""));
+                by_args.entry(key).or_default().push(Value::Object(ev));
+            }
+        }
+        let mut any = false;
+        for (call, events) in by_args {
+            let events: Vec<Value> = events.into_iter().take(per_fn).collect();
+            if events.len() < 2 {
+                continue;
+            }
+            let bang = call.replacen('(', "!(", 1);
+            let src = [format!(".r, .err = {call}"), format!(".r = {call}"), format!(".r = {bang}")].into_iter().find(|s| compile(s).is_some());
+            let Some(src) = src else { continue };
+            any = true;
+            let program = Arc::new(compile(&src).expect("compiles"));
+            let fresh = |e: &Value| -> Option<(Outcome, Value, Value)> {
+                let p = program.clone();
+                let e = e.clone();
+                std::thread::spawn(move || guarded(|| {
+                    let mut rt = Runtime::default();
+                    run_on(&mut rt, &p, &e)
+                }).ok()).join().ok().flatten()
+            };
+            let refs: Vec<Option<(Outcome, Value, Value)>> = events.iter().map(&fresh).collect();
+            for (hi, h) in events.iter().enumerate() {
+                for (ei, e) in events.iter().enumerate() {
+                    if hi == ei {
+                        continue;
+                    }
+                    let Some(want) = &refs[ei] else { continue };
+                    pairs += 1;
+                    let p = program.clone();
+                    let (h2, e2) = (h.clone(), e.clone());
+                    let got = std::thread::spawn(move || guarded(|| {
+                        let mut rt = Runtime::default();
+                        let _ = run_on(&mut rt, &p, &h2);
+                        rt.clear();
+                        run_on(&mut rt, &p, &e2)
+                    }).ok()).join().ok().flatten();
+                    let Some(got) = got else { continue };
+                    if !same(want, &got) {
+                        rep.violation(Violation::new(
+                            "C14.stdlib-call-depends-on-history",
+                            json!({"part": "stdlib-history", "program": src, "history_event": vv::enc(h), "event": vv::enc(e)}),
+                            show3(want),
+                            show3(&got),
+                        ));
+                    }
+                }
+            }
+            // process-global state: the reference taken again after all the histories must not have moved
+            for (ei, e) in events.iter().enumerate() {
+                if let (Some(a), Some(b)) = (&refs[ei], fresh(e)) {
+                    if !same(a, &b) {
+                        differing_refs += 1;
+                        rep.violation(Violation::new(
+                            "C14.stdlib-call-depends-on-process-history",
+                            json!({"part": "stdlib-history", "program": src, "event": vv::enc(e)}),
+                            show3(a),
+                            show3(&b),
+                        ));
+                    }
+                }
+            }
+        }
+        functions += u64::from(any);
+    }
+    let _ = differing_refs;
+    rep.add("evaluations", pairs);
+    rep.add("distinct_nontrivial", pairs);
+    rep.set("B2_stdlib_functions_with_histories", functions);
+    rep.set("B2_ordered_argument_pairs", pairs);
+}
+
 // ---------------------------------------------------------------------------------------------
 // (C) schedules
 
@@ -519,6 +640,7 @@ pub fn run(tier: Tier) -> Report {
     let mut rep = Report::new("C14", tier, "model_checking");
     part_a(&mut rep, tier);
     part_b(&mut rep, tier);
+    part_b2(&mut rep, tier);
     part_c(&mut rep, tier);
     inventory(&mut rep);
     cleanup_schemas();
@@ -546,6 +668,7 @@ pub fn replay(_property: &str, w: &J) -> Vec<Violation> {
         _ => {
             // histories and schedules: re-run the whole part (seconds) and keep matching witnesses
             part_b(&mut rep, Tier::Quick);
+            part_b2(&mut rep, Tier::Quick);
             part_c(&mut rep, Tier::Quick);
             cleanup_schemas();
         }
